@@ -525,7 +525,9 @@ func (e *c19Env) run(in c19In) (obs c19Obs) {
 				obs.Subs[i].Msgs = msgs
 				break
 			}
-			if now.After(deadline) {
+			// more messages than store states can never be explained (snapshots are store states in
+			// non-decreasing order and consecutive ones differ): no need to wait any longer
+			if now.After(deadline) || len(msgs) > len(st) {
 				obs.Subs[i].Msgs = msgs
 				break
 			}
@@ -661,8 +663,16 @@ func c19GenCase(r *vfRand, adv bool, withRestart bool) c19In {
 				}
 			}
 			in.Ops = append(in.Ops, c19Op{K: "txn", KVs: kvs})
-		case c < 82:
+		case c < 80:
 			in.Ops = append(in.Ops, c19Op{K: "delprefix", Key: r.PickStr(pfx, pfx, "a", "b/", key)})
+		case c < 82: // swap: one key replaced by another with the same value in one transaction
+			// (same number of entries before and after - the near miss of the length comparison)
+			k1, k2 := g.key(), g.key()
+			if k1 != k2 {
+				v := g.val()
+				in.Ops = append(in.Ops, c19Op{K: "txn", KVs: []c19KV{{Key: k1, Val: &v}, {Key: k2}}},
+					c19Op{K: "txn", KVs: []c19KV{{Key: k1}, {Key: k2, Val: &v}}})
+			}
 		case c < 92:
 			if sleepBudget > 0 {
 				ms := r.PickInt(1, 5, 20, 60, in.PullMs+40)
@@ -778,8 +788,8 @@ func TestVerifC19(t *testing.T) {
 		n := vfN(200)
 		for i := 0; i < n; i++ {
 			r := root.Fork(i)
-			// thorough tier: every 40th history stops and restarts the etcd server in the middle
-			restart := vfTier() == "thorough" && i%40 == 7
+			// every 60th history stops and restarts the etcd server in the middle
+			restart := i%60 == 7
 			jobs = append(jobs, &job{id: fmt.Sprintf("%s-sync-%d", src, i), src: src, in: c19GenCase(r, adv, restart)})
 		}
 	}
